@@ -12,6 +12,7 @@ import Props.C06
 #print axioms SpyneModel.Props.C06.documents_and_imports
 #print axioms SpyneModel.Props.C06.no_dangling_qname
 #print axioms SpyneModel.Props.C06.method_elements_compile
+#print axioms SpyneModel.Props.C06.bare_response_root_declared
 #print axioms SpyneModel.Props.C06.gen_compiles_member_kinds
 #print axioms SpyneModel.Props.C06.member_kinds_conservative
 #print axioms SpyneModel.Props.C06.class_definitions_compile
